@@ -272,7 +272,10 @@ class TextLinesCursor(Cursor):
         if not regex:
             return False
         res = False
-        while self._matchre_fast(regex):
+        pos = self.pos
+        while self._matchre_fast(regex) and self.pos > pos:
+            # NOTE: a pattern that also matches the empty string makes no progress
+            pos = self.pos
             res = True
         return res
 
